@@ -17,6 +17,7 @@ Soundness guards (DESIGN.md 2.1):
 """
 from __future__ import annotations
 
+import threading
 import time
 from dataclasses import dataclass, field
 from typing import Any, Callable, List, Optional
@@ -103,6 +104,8 @@ def _axioms(forms):
     return out
 
 
+import os as _os
+_DEBUG = bool(_os.environ.get("VERIF_DEBUG"))
 STAGES_OBLIGATION = (("default", 3000), ("qfnra-nlsat", 6000), ("qfnra", 45000), ("default", 30000))
 STAGES_BRANCH = (("default", 2000), ("qfnra-nlsat", 4000), ("qfnra", 10000))
 
@@ -129,6 +132,7 @@ def solve(forms, timeout_ms=None, want_model=True, stats: Stats | None = None, s
         stages = (("default", timeout_ms), ("qfnra-nlsat", timeout_ms), ("qfnra", timeout_ms))
     r, m = "unknown", None
     for kind, tmo in stages:
+        timer = None
         try:
             s = _mk_solver(kind)
             s.set("timeout", int(tmo))
@@ -136,14 +140,25 @@ def solve(forms, timeout_ms=None, want_model=True, stats: Stats | None = None, s
                 s.set("random_seed", int(seed))
             s.add(*forms)
             s.add(*ax)
+            # watchdog: some tactics ignore the timeout parameter in preprocessing
+            timer = threading.Timer(tmo / 1000.0 + 3.0, z3.main_ctx().interrupt)
+            timer.daemon = True
+            timer.start()
+            if _DEBUG:
+                open("/tmp/t/last_query.smt2", "w").write(f"; stage {kind} {tmo}\n" + s.to_smt2())
             r = str(s.check())
         except z3.Z3Exception:
             r = "unknown"
+        finally:
+            if timer is not None:
+                timer.cancel()
         if r != "unknown":
             if r == "sat" and want_model:
                 m = s.model()
             break
     dt = time.time() - t0
+    if _DEBUG and dt > 1.0:
+        print(f"[solve] {r} {dt:.1f}s {len(forms)} forms; last: {str(forms[-1])[:160]}", flush=True)
     if stats is not None:
         stats.queries += 1
         stats.solver_s += dt
@@ -365,6 +380,8 @@ class Engine:
                 raise HarnessError("re-execution consumed fewer decisions than recorded (non-deterministic code)")
             kind, val = out
             self.stats.paths += 1
+            if _DEBUG and self.stats.paths % 20 == 0:
+                print(f"[explore] paths={self.stats.paths} queries={self.stats.queries} solver_s={self.stats.solver_s:.1f}", flush=True)
             paths.append(Path(pc=list(self.pc), outcome=kind, value=val,
                               decisions=len(self.trace), model=None, notes=dict(self.path_notes)))
             if len(paths) > self.max_paths:
